@@ -552,7 +552,7 @@ pub fn build_cases(g: &Grammar, thorough: bool) -> Vec<Case> {
 pub fn run(tier: &str) -> Run {
     let mut run = Run::new("C01", tier);
     let g = corpus::grammar();
-    let cases = build_cases(&g, tier == "thorough");
+    let cases = build_cases(&g, crate::util::wide(tier));
     let res = par_map(cases.len(), &|i| (fnv1a(cases[i].text.as_bytes()), roundtrip(&cases[i].text, cases[i].spec.as_deref())), &|i| {
         println!("MACHINERY-ERROR: C01 case hangs: {}", cases[i].label);
         std::process::exit(2);
@@ -643,7 +643,7 @@ pub fn run(tier: &str) -> Run {
     // a loaded file plus n elements of one kind pushed through the API (no sort_new_items): the
     // writer has to keep n equal-ranked new elements in push order
     let base_text = corpus::rich_docs(&g)[0].doc.text();
-    let counts: &[usize] = if tier == "thorough" { &[1, 2, 3, 5, 8, 13, 20, 21, 22, 32, 40, 64, 100, 257] } else { &[1, 3, 8, 21, 40, 64] };
+    let counts: &[usize] = if crate::util::wide(tier) { &[1, 2, 3, 5, 8, 13, 20, 21, 22, 32, 40, 64, 100, 257] } else { &[1, 3, 8, 21, 40, 64] };
     let mut hist: Vec<(&str, usize, bool)> = Vec::new();
     for kind in crate::c05::LIST_KINDS {
         for n in counts {
@@ -695,7 +695,7 @@ pub fn run(tier: &str) -> Run {
     // operation histories: every sequence of <= depth model operations from every start file
     {
         let w = crate::hist::world(&g);
-        let depth = if tier == "thorough" { 3 } else { 2 };
+        let depth = if crate::util::deep(tier) { 3 } else { 2 };
         let seqs = crate::hist::sequences(depth);
         let n_starts = w.starts.len();
         let ores = par_map(seqs.len() * n_starts, &|j| crate::hist::judge(&w, j % n_starts, &seqs[j / n_starts]), &|j| {
